@@ -160,13 +160,17 @@ Empty(c) == [k \in 1..NF(c) |-> << >>]
 DecStruct(c, bs) == DecFrom(c, bs, 0, Empty(c))
 
 \* ------------------------------------------------------------------ the property's domain
-\* Lists cannot carry an item whose encoding is empty; on the library side a value that
-\* serialises to nothing is not emitted at all and is not part of the claim (DESIGN 4.2).
+\* A list item without any field set encodes to zero bytes.  In first or middle position it is
+\* carried by its separators (<nothing> 00 00 <B> is two items) and is part of the claim; as the LAST
+\* item it cannot be told from no item (the list splitter ignores an empty tail), so the last item of
+\* a list has a non-empty encoding.  On the library side a value that serialises to nothing is not
+\* emitted at all and is not part of the claim (DESIGN 4.2).
 RECURSIVE WF(_, _, _)
 WFField(mode, f, x) ==
     /\ f.kind # "none"
     /\ f.kind = "struct" => WF(mode, f.inner, x)
-    /\ f.kind = "seq" => \A k \in 1..Len(x) : WF(mode, f.inner, x[k]) /\ EncStruct(mode, "decl", f.inner, x[k]) # << >>
+    /\ f.kind = "seq" => /\ \A k \in 1..Len(x) : WF(mode, f.inner, x[k])
+                         /\ Len(x) > 0 => EncStruct(mode, "decl", f.inner, x[Len(x)]) # << >>
     /\ mode = "lib" => SerVal(mode, "decl", f, x) # << >>
 WF(mode, c, val) == \A i \in 1..NF(c) : val[i] # << >> => WFField(mode, Fields(c)[i], val[i][1])
 
@@ -227,12 +231,13 @@ CanonLevel(mode, c, bs) ==
             \/ fr[k].t = fr[k + 1].t
             \/ \E a, b \in 1..NF(c) : a < b /\ Fields(c)[a].tag = fr[k].t /\ Fields(c)[b].tag = fr[k + 1].t
 
-\* list values: items separated by exactly one zero-length separator, none leading or trailing
-SepCanon(bs) ==
+\* list values of n items: exactly n - 1 zero-length separators (an item without fields leaves two
+\* separators next to each other / a leading one), none trailing
+SepCanon(bs, n) ==
     LET its == IterAll(bs, 0) IN
-    /\ Len(its) > 0 => its[1].t # 0 /\ its[Len(its)].t # 0
+    /\ Cardinality({ k \in 1..Len(its) : its[k].t = 0 }) = (IF n = 0 THEN 0 ELSE n - 1)
     /\ \A k \in 1..Len(its) : its[k].t = 0 => its[k].n = 0
-    /\ \A k \in 1..(Len(its) - 1) : ~(its[k].t = 0 /\ its[k + 1].t = 0)
+    /\ Len(its) > 0 => its[Len(its)].t # 0
 
 RECURSIVE CanonDeep(_, _, _, _)
 CanonDeep(mode, pol, c, val) ==
@@ -240,7 +245,7 @@ CanonDeep(mode, pol, c, val) ==
     /\ \A k \in 1..NF(c) : val[k] # << >> =>
           LET f == Fields(c)[k]  x == val[k][1] IN
           /\ f.kind = "struct" => CanonDeep(mode, pol, f.inner, x)
-          /\ f.kind = "seq" => /\ SepCanon(SerVal(mode, pol, f, x))
+          /\ f.kind = "seq" => /\ SepCanon(SerVal(mode, pol, f, x), Len(x))
                                /\ \A q \in 1..Len(x) : CanonDeep(mode, pol, f.inner, x[q])
 
 Canonical == (pc = "dec" /\ off = 0) => /\ CanonLevel(cs.mode, cs.c, wire)
